@@ -82,8 +82,9 @@ type Frame struct {
 }
 
 type loopSnap struct {
-	names map[string]nameRef
-	heap  map[*Object]interface{}
+	names      map[string]nameRef
+	heap       map[*Object]interface{}
+	callLogLen int
 }
 
 type State struct {
@@ -95,12 +96,13 @@ type State struct {
 	hints       []hintSite
 	results     []Value
 	goals       map[*Term]bool // pc entries that are assumed proof goals (excluded from vacuity covers)
+	callLog     []string       // module functions called so far on this path (contract applications and inlined calls)
 }
 
 func (s *State) top() *Frame { return s.stack[len(s.stack)-1] }
 
 func (s *State) clone() *State {
-	n := &State{heap: make(map[*Object]interface{}, len(s.heap)), steps: s.steps, ghostDefers: append([]string(nil), s.ghostDefers...), hints: append([]hintSite(nil), s.hints...), results: s.results, goals: copyGoals(s.goals)}
+	n := &State{heap: make(map[*Object]interface{}, len(s.heap)), steps: s.steps, ghostDefers: append([]string(nil), s.ghostDefers...), hints: append([]hintSite(nil), s.hints...), results: s.results, goals: copyGoals(s.goals), callLog: append([]string(nil), s.callLog...)}
 	for k, v := range s.heap {
 		n.heap[k] = v
 	}
